@@ -6,8 +6,8 @@ d = os.path.join("/verif/seeded", sid)
 os.makedirs(d, exist_ok=True)
 for f in ("patch.diff", "seed_demo.rs", "notes.md"):
     shutil.copyfile(os.path.join(wt, "_seed", f), os.path.join(d, f))
-meta = {"id": sid, "breaks_property": prop, "needs_to_manifest": needs, "base_commit": "df3b2ec", "first_run": first,
-        "origin": "%s wave: written by an independent sub-agent given the property text, a scratch worktree of /repo at df3b2ec and the list of mechanisms earlier seeds for that property had used (to force a different one)" % {"V": "fourth", "W": "fifth", "X": "sixth", "Y": "seventh"}.get(sid[0], "later"),
+meta = {"id": sid, "breaks_property": prop, "needs_to_manifest": needs, "base_commit": ("8f7865a" if sid[0]=="Z" else "df3b2ec"), "first_run": first,
+        "origin": "%s wave: written by an independent sub-agent given the property text, a scratch worktree of /repo and the list of mechanisms earlier seeds for that property had used (to force a different one)" % {"V": "fourth", "W": "fifth", "X": "sixth", "Y": "seventh", "Z": "eighth"}.get(sid[0], "later"),
         "confirmed_by_me": {"suite_with_change": "299 passed", "demo_with_change": "FAILED", "demo_without_change": "ok", "script": "tools/seed_verify.sh"},
         "checks_run": "tools/seed_check.py on the worktree; regression: tools/run_seeds.py", "caught_by": [c.strip() for c in caught.split(";")]}
 json.dump(meta, open(os.path.join(d, "meta.json"), "w"), indent=1)
